@@ -308,6 +308,10 @@ SYNTH_PRUNE = [
     ("[CH:1]([H:2])=[CH:3].[CH3:7][C:4](=[O:5])[Cl:6]>>[CH:1]([C:4]([CH3:7])=[O:5])=[CH:3].[H:2][Cl:6]", ["CC=CCC.CC(=O)Cl"]),
     ("[C:1][C:2][H:3].[Cl:4][Cl:5]>>[C:1][C:2][Cl:4].[H:3][Cl:5]", ["CCC.ClCl", "CCCC.ClCl"]),
     ("[N:1]([H:2])[N:3].[C:4](=[O:5])[Cl:6]>>[N:1]([C:4]=[O:5])[N:3].[H:2][Cl:6]", ["CNN(C)C.CC(=O)Cl", "CNNC.CC(=O)Cl"]),
+    # connected, symmetric left-hand side with an unsymmetrical outcome (single-component patterns are anchored as a whole)
+    ("[CH2:1]1[CH2:2][Br+:3]1>>[CH2+:1][CH2:2][Br:3]", ["CC1C[Br+]1", "CCC1C[Br+]1"]),
+    ("[CH2:1]=[CH2:2]>>[CH2+:1][CH2-:2]", ["CC=C", "CC=CCC", "C=CC=O"]),
+    ("[CH2:1]1[CH2:2][CH2:3]1>>[CH2+:1][CH2:2][CH2-:3]", ["CC1CC1", "CC1CC1C"]),
     # many cross-component combinations (2 esters x 2 x 2 alcohol sites): exercises the embedding cap
     ("[C:1][O:2].[O:3][H:4]>>[C:1][O:3].[O:2][H:4]", ["COC(=O)CC(=O)OCC.CC(O)CO", "COC(C)=O.OCCO"]),
 ]
@@ -351,8 +355,8 @@ def pruning_differential(ctx, budget_frac=1.0):
         for si, sub in enumerate(subs):
             k += 1
             if ctx.mine(k):
-                pruning_pair(ctx, tpl, sub, f"synth/{ti}/{si}", automorphism=False)
-                pruning_pair(ctx, tpl, sub, f"synth/{ti}/{si}", automorphism=True)
+                pruning_pair(ctx, tpl, sub, f"synth|{tpl}|{sub}|wl-orbits", automorphism=False)
+                pruning_pair(ctx, tpl, sub, f"synth|{tpl}|{sub}|exact-orbits", automorphism=True)
     cases = case_list(kinds=("rc", "its"), strategies=("all", "comp", "bt"))
     step = 9 if ctx.quick else 1
     for i, (rid, kind, d, s) in enumerate(cases):
